@@ -612,7 +612,7 @@ func (r *Run) structural(ld *Loaded, name string, probs []string, okNote string)
 		// Run's contract - whose [property] invariant "not halted at the loop
 		// head" says the same thing deductively - was discharged in this run,
 		// that stands in; otherwise the obligation is undecided, not violated.
-		if c := ld.contracts["z80.(*CPU).Run"]; c != nil && c.Status == "discharged" {
+		if c := ld.contracts["z80.(*CPU).Run"]; c != nil && c.Status == "discharged" && strings.Contains(name, "halt/returns") {
 			o.Status, o.Backend = "discharged", "Run's contract (invariant !cpu.HALT at the loop head, discharged in this run)"
 			r.add(o)
 			return
@@ -673,6 +673,7 @@ func (ld *Loaded) runFootprint() []string {
 	// Run and the helpers it calls (extracted predicates such as "PC is on a
 	// break point"), but not Step and what lies below it
 	seen := map[*ssa.Function]bool{}
+	callsStep := false
 	var visit func(f *ssa.Function)
 	visit = func(f *ssa.Function) {
 		if seen[f] || f.Blocks == nil {
@@ -701,7 +702,11 @@ func (ld *Loaded) runFootprint() []string {
 						}
 					}
 				case *ssa.Call:
-					if c := i.Call.StaticCallee(); c != nil && strings.HasPrefix(fullName(c), modPath) && c.Name() != "Step" {
+					if c := i.Call.StaticCallee(); c != nil && strings.HasPrefix(fullName(c), modPath) {
+						if c.Name() == "Step" {
+							callsStep = true
+							continue
+						}
 						if ld.logOnly(c) {
 							continue
 						}
@@ -712,6 +717,11 @@ func (ld *Loaded) runFootprint() []string {
 		}
 	}
 	visit(fn)
+	if !callsStep {
+		// Step written out inside Run (or replaced by something else): "the loop
+		// body is one call of Step plus tests" is not the shape of this Run
+		return []string{"UNRECOGNISED: Run does not call Step; the obligation 'Run adds nothing to repeated Step calls' is stated for a Run that does"}
+	}
 	return probs
 }
 
